@@ -36,6 +36,75 @@ def models():
     return ms
 
 
+POP_OPS = ["update_template_name", "update_template_description", "deepcopy", "get_nodes", "get_run_func", "get_jacobian_func", "run"]
+
+
+def population_case(c):
+    """A circuit built from PopulationTemplate / Connectivity objects: the read-only / copy-making operations leave its populations,
+    connections and nodes as they were, and run(in_place=False) returns the same result afterwards."""
+    import copy
+    import numpy as np
+    ps = c["ps"]
+    tpl = oracle.build_population_circuit(ps)
+    outs = {f"{p}.{o}": f"{p}/{o}/{[l for l, k, _ in ps['ops'][o]['eqs'] if k == 'de'][0]}" for p, pp in ps["pops"].items() for o in pp["ops"]}
+
+    def snap():
+        pops = {k: (id(v.node), v.n, {kk: np.asarray(vv, dtype=float).tolist() for kk, vv in (v.params or {}).items()}) for k, v in tpl.populations.items()}
+        conns = [(cn.source, cn.target, np.asarray(cn.weights, dtype=float).tolist(), getattr(cn, "delays", None), getattr(cn, "spread", None))
+                 for cn in tpl.connections]
+        return dict(nodes=sorted(tpl.nodes), all_nodes=sorted(tpl.get_nodes(["all"])), populations=pops, connections=conns,
+                    edges=len(tpl.edges), circuits=sorted(tpl.circuits))
+
+    def sim():
+        df = tpl.run(simulation_time=0.3, step_size=0.05, solver="euler", outputs=dict(outs), verbose=False, clear=True, in_place=False,
+                     float_precision="float64")
+        return np.asarray(df.values, dtype=float)
+    fails = []
+    try:
+        s0, r0 = snap(), sim()
+    except Exception as exn:
+        return dict(status="skipped", fails=[], detail=dict(note=f"baseline: {type(exn).__name__}: {exn}"))
+    kw = dict(step_size=1e-3, backend="default", verbose=False, float_precision="float64", in_place=False, clear=True)
+    for op in c["ops"]:
+        try:
+            if op == "update_template_name":
+                tpl.update_template(name="other_name")
+            elif op == "update_template_description":
+                tpl.update_template(description="a copy with another description")
+            elif op == "deepcopy":
+                copy.deepcopy(tpl)
+            elif op == "get_nodes":
+                tpl.get_nodes(["all"])
+            elif op == "get_run_func":
+                tpl.get_run_func("vf", vectorize=True, file_name="pop_ro", **kw)
+            elif op == "get_jacobian_func":
+                tpl.get_jacobian_func("jf", vectorize=True, file_name="pop_roj", **kw)
+            elif op == "run":
+                sim()
+        except Exception as exn:
+            fails.append(dict(clause=f"operation `{op}` on a population circuit succeeds", observed=f"{type(exn).__name__}: {exn}"))
+            break
+        s1 = snap()
+        if s1 != s0:
+            diff = {k: dict(before=s0[k], after=s1[k]) for k in s0 if s0[k] != s1[k]}
+            fails.append(dict(clause=f"`{op}` leaves the populations, connections and nodes of the template unchanged", observed=str(diff)[:600]))
+            break
+    if not fails:
+        try:
+            r1 = sim()
+            if r1.shape != r0.shape or not np.allclose(r1, r0, rtol=0, atol=1e-12):
+                fails.append(dict(clause=f"run(in_place=False) returns the same result after {'+'.join(c['ops'])}", observed=r1[-1].tolist(), expected=r0[-1].tolist()))
+        except Exception as exn:
+            fails.append(dict(clause=f"run(in_place=False) still works after {'+'.join(c['ops'])}", observed=f"{type(exn).__name__}: {exn}"))
+    return dict(status="violated" if fails else "ok", fails=fails[:2])
+
+
+def case_fn(c):
+    if c.get("kind") == "population_readonly":
+        return population_case(c)
+    return cases.case_fn(c)
+
+
 def families(tier, seed):
     rng = random.Random(seed)
     out = []
@@ -62,15 +131,28 @@ def families(tier, seed):
             rng.shuffle(seq3)
             for sq in [q for q in seq3 if not ("run_inputs" in q and mtag == "hierarchy-2")][:100]:
                 out.append(dict(tag=f"{mtag}/{'+'.join(sq)}", features=dict(model=mtag, ops=sq), kind="readonly", model=model, ops=sq, seed=seed))
+    # a circuit built from PopulationTemplate / Connectivity objects
+    c16 = {t: ps for t, f, ps in gen.c16_cases(seed)}
+    for ptag in ("P1-single-pop-n3-signed-sparse", "P2-two-pops-nonsquare-signed"):
+        if ptag not in c16:
+            continue
+        for op in POP_OPS:
+            out.append(dict(tag=f"population-{ptag.split('-')[0]}/{op}", features=dict(model="population", ops=[op]), kind="population_readonly",
+                            ps=c16[ptag], ops=[op]))
+        sq = [list(p) for p in itertools.permutations(POP_OPS, 2)]
+        rng.shuffle(sq)
+        for q in sq[: (4 if tier == "quick" else 40)]:
+            out.append(dict(tag=f"population-{ptag.split('-')[0]}/{'+'.join(q)}", features=dict(model="population", ops=q), kind="population_readonly",
+                            ps=c16[ptag], ops=q))
     return out
 
 
 def main():
     chk = Check("C14", "exploration")
     driver.run_family(
-        chk, "read-only-operations-leave-template-unchanged", families(chk.tier, chk.seed), cases.case_fn, site="C14/read-only",
+        chk, "read-only-operations-leave-template-unchanged", families(chk.tier, chk.seed), case_fn, site="C14/read-only",
         rule="templates: three nodes sharing one NodeTemplate, two interleaved templates sharing operators, per-node overrides, "
-             "hierarchies of depth 1 and 2 with reused sub-circuits; operations: get_nodes, get_edges, get_edge, collect_edges, "
+             "hierarchies of depth 1 and 2 with reused sub-circuits, circuits built from PopulationTemplate / Connectivity objects; operations: get_nodes, get_edges, get_edge, collect_edges, "
              "get_node_template, __getitem__, to_yaml, deepcopy, update_template (not in place), get_run_func / get_jacobian_func / "
              "run with in_place=False; every single operation and seeded sequences of 2 (thorough: 3); after each operation a deep "
              "snapshot (equations, variable values, overrides, edges, sub-circuits) must be unchanged, afterwards the vector field "
